@@ -78,8 +78,34 @@ var (
 	max256  = new(big.Int).Sub(two256, big.NewInt(1))
 )
 
-// randScalar returns a value in [1, n-2].
+// randScalar returns a value in [1, n-2]: mostly uniform, sometimes structured (powers
+// of two and their neighbours, long runs of equal bits, sparse values, values next to
+// n), the shapes on which windowed multiplication, recoding and carry chains go wrong.
 func randScalar(r *core.Rand) *big.Int {
+	if r.Chance(1, 8) {
+		v := new(big.Int)
+		switch r.Intn(6) {
+		case 0: // 2^i
+			v.Lsh(big.NewInt(1), uint(r.Intn(256)))
+		case 1: // 2^i - 1
+			v.Lsh(big.NewInt(1), uint(1+r.Intn(255)))
+			v.Sub(v, big.NewInt(1))
+		case 2: // 2^i + 2^j
+			v.Lsh(big.NewInt(1), uint(r.Intn(256)))
+			v.Add(v, new(big.Int).Lsh(big.NewInt(1), uint(r.Intn(256))))
+		case 3: // one repeated byte
+			v.SetBytes(bytes.Repeat([]byte{byte(r.PickInt(0x0f, 0xf0, 0x55, 0xaa, 0x77, 0x88, 0xfe, 0x01, r.Intn(256)))}, 32))
+		case 4: // n - small
+			v.Sub(ref.SM2N, big.NewInt(int64(2+r.Intn(70000))))
+		default: // a window of random bits in a sea of zeros
+			v.SetBytes(r.Bytes(r.Range(1, 4)))
+			v.Lsh(v, uint(r.Intn(224)))
+		}
+		v.Mod(v, ref.SM2N)
+		if ref.KeyValid(v) {
+			return v
+		}
+	}
 	for {
 		v := ref.Int(r.Bytes(32))
 		if ref.KeyValid(v) {
@@ -160,6 +186,34 @@ func solveE(reason string, d, k *big.Int) []byte {
 // the classes where fixed-width encodings go wrong (1..3, one machine word, several
 // words, almost all).
 func smallValue(r *core.Rand) *big.Int {
+	if r.Chance(1, 4) {
+		// structured instead of short: 2^a - 2^b (a run of one bits, possibly covering whole
+		// machine words), 2^a, 2^a + 2^b
+		a, b := r.Range(1, 255), r.Range(0, 254)
+		if r.Chance(1, 2) { // run aligned to 64-bit limb boundaries
+			a = 64 * r.Range(1, 3)
+			if r.Chance(1, 2) {
+				a += 64
+			}
+			b = r.PickInt(0, 8, 40, 56, 61, 63, 64, 100, 120)
+		}
+		if b >= a {
+			a, b = b+1, a
+		}
+		v := new(big.Int).Lsh(big.NewInt(1), uint(a))
+		switch r.Intn(4) {
+		case 0:
+			// 2^a
+		case 1:
+			v.Add(v, new(big.Int).Lsh(big.NewInt(1), uint(b)))
+		default:
+			v.Sub(v, new(big.Int).Lsh(big.NewInt(1), uint(b)))
+		}
+		v.Mod(v, ref.SM2N)
+		if v.Sign() > 0 {
+			return v
+		}
+	}
 	z := r.PickInt(1, 1, 2, 3, 3, 7, 8, 9, 12, 15, 16, 17, 24, 30, 31)
 	v := ref.Int(r.Bytes(32))
 	v.Rsh(v, uint(8*z))
